@@ -100,6 +100,9 @@ void iolog_account (int *blocks, long *bytes) ;
 /* fdworld.c (C19: real descriptors) */
 void op_fdworld (char **tok, int ntok) ;
 
+/* lowfd.c (C14 / C19: descriptors 0 / 1 free, so that handles get those numbers) */
+void op_lowfd (char **tok, int ntok) ;
+
 /* failopen.c (C09 / C16: one open attempt + "did it change the caller's file") */
 void op_failopen (char **tok, int ntok) ;
 void op_second (char **tok, int ntok) ;		/* secondfile.c */
